@@ -30,7 +30,9 @@ from lib.core import Stream, cZ, cbool, clist
 # group label -> component ids (2 and 3 overlap with 1 on purpose: different frozensets are
 # different groups for the distributor)
 # (ids 1, 9, 17 collide in a small hash table, so the iteration order of a set of them depends on the insertion order)
-GROUPS = {1: frozenset({1, 9}), 2: frozenset({9, 17}), 3: frozenset({4})}
+# group 4 is the EMPTY component set: for the distributor just another group
+GROUPS = {1: frozenset({1, 9}), 2: frozenset({9, 17}), 3: frozenset({4}), 4: frozenset()}
+EMPTY = 4
 GROUP_OF = {v: k for k, v in GROUPS.items()}
 MODES = ["instant_ok", "instant_exc", "gate_ok", "gate_exc", "sleep_ok", "sleep_exc"]
 
@@ -429,7 +431,7 @@ def gen_case(rng, ngroups=None, nreq=None):
     while sent < n:
         x = rng.random()
         if x < (0.75 if style == "burst" else 0.5):
-            g = rng.randint(1, k)
+            g = rng.randint(1, k) if rng.random() > 0.07 else EMPTY
             if style == "gate":
                 mode = rng.choice(["gate_ok", "gate_ok", "gate_exc"])
             elif style == "sleep":
@@ -499,6 +501,9 @@ def boundary_cases():
         {"steps": [R(1, "gate_ok") + [5], Y(), R(1, "gate_ok") + [5], Y(), ["rel", 1], Y()]},
         {"steps": [R(1, "gate_ok") + [5], Y(), R(1, "gate_ok") + [6], R(1, "gate_ok") + [5], Y(), ["rel", 1], Y()]},
         {"steps": [R(1, "gate_ok") + [5], Y(), R(1, "gate_ok") + [6], R(1, "gate_ok") + [6], Y(), ["rel", 1], Y()]},
+        # a request for the EMPTY component set, followed at once by requests of other groups
+        {"steps": [R(EMPTY, "gate_ok"), R(1, "gate_ok"), R(2, "instant_ok"), Y(), R(EMPTY, "instant_ok"), ["rel", EMPTY], Y(), ["rel", 1], Y()]},
+        {"steps": [R(1, "gate_ok"), Y(), R(EMPTY, "instant_exc"), R(EMPTY, "gate_ok"), R(1, "gate_ok"), R(3, "sleep_ok", 50), ["sleep", 60], ["rel", 1], Y()]},
         # the caller's own mutable id set, passed uncopied, is updated in place while its request is in flight / pending
         {"steps": [R(1, "gate_ok") + [None, "shared"], Y(), ["mut", 1, 0], ["rel", 1], Y(), ["unmut", 1], R(1, "gate_ok") + [None, "shared"], Y(), ["rel", 1], Y()]},
         {"steps": [R(1, "gate_ok") + [None, "shared"], Y(), R(1, "gate_ok") + [None, "shared"], ["mut", 1, 2], Y(), ["rel", 1], Y(), R(2, "gate_ok"), Y(), ["rel", 1], ["rel", 2], Y()]},
@@ -535,7 +540,7 @@ def gen_multi_case(rng):
         x = rng.random()
         if x < 0.5:
             mode = rng.choice(["gate_ok", "gate_ok", "gate_exc", "instant_ok", "sleep_ok", "sleep_exc"])
-            steps.append(["req", rng.randint(1, k), mode, rng.choice([10, 50, 200])])
+            steps.append(["req", rng.randint(1, k) if rng.random() > 0.07 else EMPTY, mode, rng.choice([10, 50, 200])])
             sent += 1
         elif x < 0.62 and made < 3:
             if style in ("replace", "both") and (style == "replace" or rng.random() < 0.5):
@@ -570,6 +575,7 @@ def multi_boundary_cases():
         {"steps": [["spawn"], R(1), Y, ["use", 1], R(1), Y, R(1), ["use", 0], R(1), Y, ["rel", 1], Y]},
         {"steps": [["spawn"], R(1), Y, ["use", 1], R(2), R(3, "instant_ok"), Y, ["rel", 2], ["use", 0], R(2), Y]},
         {"steps": [R(1, "sleep_ok"), ["replace"], R(1, "sleep_exc"), ["spawn"], ["use", 2], R(1, "instant_ok"), ["sleep", 20]]},
+        {"steps": [R(EMPTY), Y, ["replace"], R(EMPTY, "instant_ok"), R(1), Y, ["rel", EMPTY], ["rel", 1], Y]},
     ]
 
 
@@ -586,7 +592,8 @@ def gen_wrapper_case(rng):
         burst = min(total - sent, rng.choice([1, 2, 2, 3, 3, 5, 10, 40]))
         for _ in range(burst):          # back to back: no yield in between
             mode = rng.choice(["gate_ok", "gate_ok", "gate_exc", "instant_ok", "instant_exc", "sleep_ok"])
-            steps.append(["req", rng.randint(1, k), mode, rng.choice([1, 10, 50])] + ([rng.choice(values)] if values else []))
+            steps.append(["req", rng.randint(1, k) if rng.random() > 0.07 else EMPTY, mode, rng.choice([1, 10, 50])]
+                         + ([rng.choice(values)] if values else []))
         sent += burst
         x = rng.random()
         if x < 0.5:
@@ -607,6 +614,8 @@ def wrapper_boundary_cases():
             out.append({"via": "wrapper", "warm": warm, "mgr_start_ms": ms, "steps": [R(1), R(2), R(3), R(1), R(2), ["yield", 3], ["rel", 1]]})
     out.append({"via": "wrapper", "warm": 3, "mgr_start_ms": 0, "steps": [R(1), ["yield", 3], R(1), R(2), R(1, "instant_ok"), R(3), ["yield", 2], ["rel", 1]]})
     out.append({"via": "wrapper", "warm": 0, "mgr_start_ms": 10, "steps": [R((i % 3) + 1, "instant_ok") for i in range(45)]})
+    out.append({"via": "wrapper", "warm": 0, "mgr_start_ms": 0, "steps": [R(EMPTY), R(1), R(2, "instant_ok"), ["yield", 3], ["rel", EMPTY], ["rel", 1]]})
+    out.append({"via": "wrapper", "warm": 3, "mgr_start_ms": 0, "steps": [R(1), ["yield", 2], R(EMPTY, "instant_ok"), R(1), R(3), ["yield", 3], ["rel", 1]]})
     return out
 
 
@@ -716,6 +725,8 @@ class DistStream(Stream):
                     busy.discard(ev[1])
         if coalesced:
             out.append("request_waited")
+        if any(s_[0] == "req" and s_[1] == EMPTY for s_ in case["steps"]):
+            out.append("request_for_empty_component_set")
         if any(s_[0] == "mut" for s_ in case["steps"]):
             out.append("caller_mutates_shared_id_set")
         # equal values: an arriving request EQUAL to the one in flight / to the pending one (A,A / A,B,A / A,B,B)
